@@ -13,7 +13,7 @@ from typing import Any, Dict, List, Optional, Sequence
 
 import numpy
 
-from .. import core, model, seams
+from .. import prelude, core, model, seams
 
 ID = "C18"
 LEVEL = "exploration"
@@ -105,13 +105,13 @@ def generate(rs: int, tier: str, index: int) -> dict:
                 keys[ch.below(d)] = [1] * n
             if ch.chance(0.1):
                 keys = [sorted(r) for r in keys]
-            step = {"id": 0, "k": "glexsort", "keys": keys if (d > 1 or ch.chance(0.5)) else keys[0], "flags": "all"}
+            step = {"id": 0, "k": "glexsort", "keys": keys if (d > 1 or ch.chance(0.5)) else keys[0], "flags": "all", "mutate_first": ch.chance(0.2)}
         elif kind == "glexindex":
-            step = dict(_gen_index_case(ch.sub("c")), id=0, k="glexindex")
+            step = dict(_gen_index_case(ch.sub("c")), id=0, k="glexindex", mutate_first=ch.chance(0.3))
         elif kind == "bindex":
             c = _gen_index_case(ch.sub("c"))
             c.pop("graded"), c.pop("reverse")
-            step = dict(c, id=0, k="bindex", ordering="".join(x for x in "GRI" if ch.chance(0.5)))
+            step = dict(c, id=0, k="bindex", ordering="".join(x for x in "GRI" if ch.chance(0.5)), mutate_first=ch.chance(0.3))
         elif kind == "monomial":
             c = _gen_index_case(ch.sub("c"))
             if c["dimensions"] > 3:
@@ -127,7 +127,7 @@ def generate(rs: int, tier: str, index: int) -> dict:
             step = {"id": 0, "k": "cross_truncate", "indices": [[ch.below(7) for _ in range(d)] for _ in range(n)],
                     "bound": ([ch.between(-1, 5) for _ in range(d)] if ch.chance(0.5) else ch.between(-1, 5)), "norm": ch.choice(NORMS)}
         steps.append(step)
-    return {"property": ID, "run_seed": rs, "tier": tier, "steps": steps}
+    return {"property": ID, "run_seed": rs, "tier": tier, "prelude": prelude.gen_prelude(core.Chooser(rs, "prelude")), "steps": steps}
 
 
 # ---------------------------------------------------------------------------
@@ -268,6 +268,13 @@ class Runner:
         cols = [tuple(int(v) for v in keys2[:, i]) for i in range(n)]
         flag_sets = [(g, r) for g in (False, True) for r in (False, True)] if step.get("flags") == "all" else [(step["graded"], step["reverse"])]
         for graded, reverse in flag_sets:
+            if step.get("mutate_first"):
+                try:
+                    earlier = numpoly.glexsort(keys, graded=graded, reverse=reverse)
+                    if earlier.size and earlier.flags.writeable:
+                        earlier[...] = 0
+                except Exception:  # noqa: BLE001
+                    pass
             results = self.under_policies(step, lambda: numpoly.glexsort(keys, graded=graded, reverse=reverse))
             ref = sorted(cols, key=lambda c: ref_sort_key(c, graded, reverse))
             sums = [sum(c) for c in cols]
@@ -328,6 +335,15 @@ class Runner:
                 if step.get("names"):
                     kw["dimensions"] = tuple(step["names"])
                 func = lambda: numpoly.monomial(graded=graded, reverse=reverse, **kw)
+        if step.get("mutate_first") and kind != "monomial":
+            # history: an earlier caller got the same result and edited it in place
+            try:
+                earlier = func()
+                if isinstance(earlier, numpy.ndarray) and earlier.size and earlier.flags.writeable:
+                    earlier += 7
+                    self.bump("probe:returned_array_mutated_before_recall")
+            except Exception:  # noqa: BLE001
+                pass
         results = self.under_policies(step, func)
         sure, maybe, key = ref_glexindex(step["start"], step["stop"], step["dimensions"], step["cross_truncation"], graded, reverse)
         base = self.check_policies(step, kind, {k: (self._mono_fp(v) if kind == "monomial" else v) for k, v in results.items()})
@@ -418,11 +434,16 @@ def execute(plan: dict) -> dict:
     with warnings.catch_warnings():
         warnings.simplefilter("ignore")
         with numpy.errstate(all="ignore"):
+            prelude.run_prelude(plan.get("prelude"), runner.stats)
             runner.run()
     return {"violations": runner.violations, "events": runner.events, "stats": runner.stats, "sigs": sorted(runner.sigs)}
 
 
 def simplify(plan: dict):
+    if plan.get("prelude"):
+        yield dict(plan, prelude=None)
+        for i in range(len(plan["prelude"])):
+            yield dict(plan, prelude=plan["prelude"][:i] + plan["prelude"][i + 1:] or None)
     for i, step in enumerate(plan["steps"]):
         if step["k"] == "glexsort":
             keys = step["keys"]
